@@ -1,6 +1,6 @@
 (* C07 -- property theorems only.  Proofs live in C07/Proofs*.v. *)
 From Coq Require Import NArith List Bool Arith.
-From DV Require Import Base.Outcome Base.Bytes C07.Gen C07.Model C07.Proofs C07.Proofs2 C07.Proofs3 C07.Proofs4 C07.Proofs5 C07.Proofs6.
+From DV Require Import Base.Outcome Base.Bytes C07.Gen C07.Model C07.Proofs C07.Proofs2 C07.Proofs3 C07.Proofs4 C07.Proofs5 C07.Proofs6 C07.Proofs7.
 Import ListNotations.
 Local Open Scope N_scope.
 
@@ -371,3 +371,24 @@ Theorem C07_type_scan_total : forall rt codes ms origin s,
   PInv s -> good PInv (run_type_scan origin ms s).
 Proof. exact type_scan_total. Qed.
 Print Assumptions C07_type_scan_total.
+
+Theorem C07_utf8_reencode_fits : forall l sym n c,
+  sym_at l = SymOk sym n -> into_char sym = Some c -> (enc_len c <= n)%nat.
+Proof. exact into_char_len. Qed.
+Print Assumptions C07_utf8_reencode_fits.
+
+Theorem C07_scan_string_protocol : forall s, string_drops_quote = true ->
+  PInv s -> good (fun rs => PInv (snd rs)) (scan_string s).
+Proof. exact scan_string_good. Qed.
+Print Assumptions C07_scan_string_protocol.
+
+Theorem C07_scan_string_quote_refuted : string_drops_quote = false ->
+  snd (read_file w_include) = EPanic 4
+  /\ fst (read_file [36;73;78;67;76;85;68;69;32;34;102;34;10]) = [EInclude [102; 34] None].
+Proof. exact scan_string_quote_refuted. Qed.
+Print Assumptions C07_scan_string_quote_refuted.
+
+Theorem C07_scan_string_quote_fixed : string_drops_quote = true ->
+  read_file w_include = ([EInclude [102] (Some [1; 120; 0])], EEof).
+Proof. exact scan_string_quote_fixed. Qed.
+Print Assumptions C07_scan_string_quote_fixed.
